@@ -24,6 +24,13 @@ pub fn make_cfg(seed: u64, idx: u64) -> gen_::Cfg {
         f.mtime = if k % 2 == 0 { 1_500_000_000 + k as u32 } else { 1_700_000_000 + k as u32 };
         cfg.files.push(f);
     }
+    // every third configuration is (also) made of the names real packages carry, half of them newer than the source date
+    if idx % 3 == 2 {
+        for (k, mut f) in gen_::realistic_files(&mut rng, &mut used, Some((idx / 3) as usize)).into_iter().enumerate() {
+            f.mtime = if k % 2 == 1 { 1_500_000_000 + k as u32 } else { 1_700_000_000 + k as u32 };
+            cfg.files.push(f);
+        }
+    }
     cfg.late_source_date = idx % 2 == 1;
     cfg.signer = match idx % 3 { 0 => None, 1 => Some("ed25519".into()), _ => Some("rsa4096".into()) };
     cfg
